@@ -21,7 +21,10 @@ class P(Prop):
     trusted = ["collections.abc MutableSequence mix-ins (append, extend, pop, remove, reverse, +=, index) as CPython 3.12 defines them",
                "print(..., end=ending) to a text file writes '\\n' unchanged on this platform"]
 
-    def gen_ops(self, rng, n0, nops):
+    def gen_ops(self, rng, n0, nops, pool=()):
+        # values are drawn from a small pool (the file's own lines plus a few short strings) half of the time, so that
+        # duplicates of file-backed lines, successful remove()s and equal neighbours are common
+        pool = [fc.s2b(x) for x in pool] + [fc.s2b("a"), fc.s2b("b"), fc.s2b("")]
         ops, n = [], n0
         live = []          # iterators created since the last modification (older ones are never touched again)
         niter = 0
@@ -35,7 +38,7 @@ class P(Prop):
             r = rng.random()
             if r < 0.79:
                 live = []          # a modifying call follows: iterators created before it are abandoned
-            s = fc.s2b(fc.gen_line(rng, 6, long_ok=False))
+            s = fc.s2b(fc.gen_line(rng, 6, long_ok=False)) if rng.random() < 0.5 else rng.choice(pool)
             pos = rng.randint(-n - 2, n + 1)
             if r < 0.14:
                 ops.append([0, pos, s])
@@ -52,7 +55,7 @@ class P(Prop):
             elif r < 0.64:
                 ops.append([6, pos])
             elif r < 0.70:
-                ops.append([7, s if rng.random() < 0.5 else fc.s2b("a")])
+                ops.append([7, s if rng.random() < 0.3 else rng.choice(pool)])
             elif r < 0.75:
                 ops.append([8])
             elif r < 0.79:
@@ -76,13 +79,15 @@ class P(Prop):
             if not content:
                 content = "x\n"
             nl = content.count("\n") + (0 if content.endswith("\n") else 1)
-            yield dict(content=list(content.encode("utf-8")), cls=cls, ops=self.gen_ops(rng, nl, rng.randint(0, 25)),
+            lines = [l.rstrip("\r") for l in content.split("\n")]
+            yield dict(content=list(content.encode("utf-8")), cls=cls, ops=self.gen_ops(rng, nl, rng.randint(0, 25), lines[:nl]),
                        ending=fc.s2b(rng.choice(["\n", "\n", "\n", "\r\n", "", "|", "\t"])))
 
     def exhaustive(self, tier):
         base = "l0\nl1\nl2\n"
         alpha = [[0, 1, fc.s2b("X")], [0, -1, fc.s2b("Y")], [0, 3, fc.s2b("Z")], [1, 0], [1, -4], [2, 1, fc.s2b("I")],
-                 [2, -9, fc.s2b("J")], [3, fc.s2b("A")], [5], [6, 0], [7, fc.s2b("l1")], [7, fc.s2b("nope")], [8], [13], [12]]
+                 [2, -9, fc.s2b("J")], [3, fc.s2b("A")], [3, fc.s2b("l0")], [5], [6, 0], [7, fc.s2b("l1")], [7, fc.s2b("l0")],
+                 [7, fc.s2b("nope")], [8], [13], [12]]
         import itertools
         L = 2 if tier == "quick" else 3
         for cls in fc.MUT_CLASSES:
